@@ -12,8 +12,8 @@ import (
 // provider (byteSrc) into the same structured scenario as TestC19, focused on
 // one RPC family; the string arguments are spliced verbatim into the fields the
 // family is most sensitive to, so that the engine's byte-level mutations reach
-// them directly. Same oracle (runCase). State is reset per iteration: fresh
-// server + fresh memory datastore. A crasher is reproducible by
+// them directly. Same oracle (runCase, through the worker process like TestC19).
+// State is reset per iteration: fresh server + fresh memory datastore. A crasher is reproducible by
 // `go test -run 'FuzzC19Xxx/<file>'`; VERIF_C19_DUMP=<dir> additionally writes
 // the decoded scenario as a TestC19 replay file.
 
@@ -33,24 +33,54 @@ func fuzzRun(t *testing.T, c Case) {
 		b, _ := json.Marshal(map[string]any{"property": "C19", "case": c})
 		_ = os.WriteFile(dir+"/fuzz-last-case.json", b, 0o644)
 	}
-	res := runCase(c, nil)
-	if res.Fail == nil {
-		return
+	// 1. The verdict comes from an execution in the worker process (same as TestC19): fatal
+	//    errors are attributed, and an input that starves or wedges the process (the known
+	//    evaluation explosions do) cannot take the fuzz worker with it.
+	res := execute(c)
+	if f := confirmedFailure(c, res); f != nil {
+		if dir := os.Getenv("VERIF_C19_DUMP"); dir != "" {
+			b, _ := json.MarshalIndent(map[string]any{"property": "C19", "signature": f.Signature, "msg": f.Msg, "case": c}, "", " ")
+			_ = os.WriteFile(dir+"/fuzz-"+sanitize(f.Signature)+".json", b, 0o644)
+		}
+		t.Fatalf("property C19 violated [%s]: %s\n--- case: %v", f.Signature, f.Msg, describe(c))
 	}
-	if fw.IsKnown(res.Fail.Signature) {
-		return
-	}
-	if res.Fail.Timing {
-		// confirm wall-clock verdicts once
-		if again := runCase(c, nil); again.Fail == nil || again.Fail.Signature != res.Fail.Signature {
-			return
+	// 2. Coverage feedback for the fuzz engine needs the server code to run in THIS process:
+	//    scenarios that were benign and quick in the worker are executed here once more.
+	if res.Fail == nil && !res.Dirty && !res.Harness && len(res.OutOfDomain) == 0 && quick(res) && os.Getenv("VERIF_C19_INPROC") != "1" {
+		if again := runCase(c, nil); again.Fail != nil {
+			// non-deterministic: ask the worker process again before believing it
+			if f := confirmedFailure(c, again); f != nil {
+				t.Fatalf("property C19 violated [%s]: %s\n--- case: %v", f.Signature, f.Msg, describe(c))
+			}
 		}
 	}
-	if dir := os.Getenv("VERIF_C19_DUMP"); dir != "" {
-		b, _ := json.MarshalIndent(map[string]any{"property": "C19", "signature": res.Fail.Signature, "msg": res.Fail.Msg, "case": c}, "", " ")
-		_ = os.WriteFile(dir+"/fuzz-"+sanitize(res.Fail.Signature)+".json", b, 0o644)
+}
+
+// quick reports whether every request of the execution was far from its deadline.
+func quick(res Result) bool {
+	for _, rr := range res.Reqs {
+		if rr.WallMs > 300 || rr.Late || rr.Outcome == "deadline" {
+			return false
+		}
 	}
-	t.Fatalf("property C19 violated [%s]: %s\n--- case: %v", res.Fail.Signature, res.Fail.Msg, describe(c))
+	return true
+}
+
+// confirmedFailure returns the failure of res when it is not a known finding and
+// (for wall-clock / heap verdicts) reproduces in a fresh worker process.
+func confirmedFailure(c Case, res Result) *Fail {
+	if res.Fail == nil || fw.IsKnown(res.Fail.Signature) {
+		return nil
+	}
+	if !res.Fail.Timing {
+		return res.Fail
+	}
+	for k := 0; k < confirmTries; k++ {
+		if again := execute(c); again.Fail != nil && again.Fail.Signature == res.Fail.Signature {
+			return res.Fail
+		}
+	}
+	return nil
 }
 
 func sanitize(s string) string {
@@ -149,7 +179,7 @@ func FuzzC19Model(f *testing.F) {
 			d := int(depth) % (maxRewriteDepth + 1)
 			mo := &HModel{Schema: "1.1", Types: []HType{{Name: lit("user")}, {Name: raw(typeName), Rels: []HRel{
 				{Name: raw(relName), RW: &HRW{K: "chain", Depth: d, Op: "mixed", Width: 2, Leaf: &HRW{K: "this"}},
-					Restr: []HRestr{{Type: lit("user")}, {Type: lit("user"), Cond: lit("fc")}, {Type: raw(typeName), Rel: raw(relName)}}},
+					Restr: []HRestr{{Type: lit("user")}, {Type: lit("user"), Cond: lit("fc")}}},
 			}}},
 				Conds: []HCond{{Key: lit("fc"), Expr: raw(expr), Params: []HParam{{Name: raw(param), T: HParamType{Name: 4}}, {Name: lit("s"), T: HParamType{Name: 3}}}}}}
 			wm := Req{RPC: "WriteAuthorizationModel", Model: mo}
